@@ -59,7 +59,7 @@ for p in props:
                        engine='tlc-spil', technique=c['tech'],
                        level_claimed=dict(category='model_checking', text=c['text'], design_ref='DESIGN.md section ' + c['ref']),
                        level_note=TRUST))
-hooks_commits = []
+hooks_commits = [l.split()[0] for l in subprocess.run(['git', '-C', '/repo', 'log', '--format=%h %s'], capture_output=True, text=True).stdout.splitlines() if 'verif hook' in l]
 m = dict(version=1, setup_cmd='true',
          hooks=dict(guard='SPIL_VERIF', enable='SPIL_VERIF=1 in the environment of the spil subprocesses started by ./check (pure Python: nothing to build)',
                     baseline_off_cmd='cd /repo && env -u SPIL_VERIF /venv/bin/python -m pytest -ra -q -p no:cacheprovider --timeout=900 --continue-on-collection-errors',
